@@ -448,7 +448,7 @@ func (w *world) apply(o HOp) {
 				if len(l.CircuitID) > 0 {
 					w.cstatus[fmt.Sprintf("%x", l.CircuitID)] = 4
 				}
-				w.events = append(w.events, fmt.Sprintf("GDecline %s", vh.Bytes(clientMAC(o.C))))
+				w.events = append(w.events, fmt.Sprintf("GDecline %s %s", vh.Bytes(clientMAC(o.C)), vh.Bytes(l.CircuitID)))
 			}
 		}
 	case "age":
@@ -560,6 +560,42 @@ func (w *world) slow(f []byte) slowView {
 		sv.Lease = binary.BigEndian.Uint32(lt)
 	}
 	return sv
+}
+
+// frame as a Coq term with zero runs compressed: unz [B [..]; Z n; ...]
+func coqFrame(f []byte) string {
+	var ch []string
+	i := 0
+	for i < len(f) {
+		j := i
+		for j < len(f) && f[j] == 0 {
+			j++
+		}
+		if j-i >= 6 {
+			ch = append(ch, fmt.Sprintf("Z %d", j-i))
+			i = j
+			continue
+		}
+		// literal run up to the next long zero run
+		k := i
+		for k < len(f) {
+			if f[k] == 0 {
+				z := k
+				for z < len(f) && f[z] == 0 {
+					z++
+				}
+				if z-k >= 6 {
+					break
+				}
+				k = z
+				continue
+			}
+			k++
+		}
+		ch = append(ch, "B "+vh.Bytes(f[i:k]))
+		i = k
+	}
+	return "(unz " + vh.List(ch) + ")"
 }
 
 func (sv slowView) coq() string {
@@ -809,9 +845,9 @@ func (e *env) run(c Case) vh.Case {
 		r := results[i]
 		fo := "None"
 		if !bytes.Equal(r.out.Data, p.Frame) {
-			fo = "(Some " + vh.Bytes(r.out.Data) + ")"
+			fo = "(Some " + coqFrame(r.out.Data) + ")"
 		}
-		items = append(items, vh.Pair(fmt.Sprintf("Probe %s %d %d %s", vh.Bytes(p.Frame), r.now, unow, sv.coq()),
+		items = append(items, vh.Pair(fmt.Sprintf("Probe %s %d %d %s", coqFrame(p.Frame), r.now, unow, sv.coq()),
 			fmt.Sprintf("OXdp %d %s", r.out.V, fo)))
 		tags[fmt.Sprintf("verdict:%d", r.out.V)] = true
 		if r.out.V == 3 {
@@ -900,9 +936,9 @@ func main() {
 		return
 	}
 	r := vh.NewRng(cfg.Seed)
-	n := map[string]int{"go": 70, "guarded": 40, "net": 60, "defect": 40, "raw": 40, "lens": 2}
+	n := map[string]int{"go": 50, "guarded": 30, "net": 40, "defect": 30, "raw": 40, "lens": 1}
 	if cfg.Thorough() {
-		n = map[string]int{"go": 1000, "guarded": 500, "net": 800, "defect": 500, "raw": 600, "lens": 12}
+		n = map[string]int{"go": 750, "guarded": 450, "net": 600, "defect": 400, "raw": 600, "lens": 10}
 	}
 	streams := []struct {
 		name string
@@ -914,7 +950,7 @@ func main() {
 		{"net", genNet, map[string]interface{}{"guarded": "maps rewritten to network-order words (harness), IHL 5, >= 64 option bytes"}},
 		{"defect", genDefect, nil},
 		{"raw", genRaw, nil},
-		{"lens", genLens, map[string]interface{}{"exhaustive": true, "note": "every frame length 0..valid+64 of one request per case (native runner; kernel for >= 14)"}},
+		{"lens", genLens, map[string]interface{}{"exhaustive": true, "note": "every frame length 0..valid+24 of one request per case (native runner; kernel for >= 14)"}},
 	}
 	for _, s := range streams {
 		var cs []Case
